@@ -16,9 +16,9 @@ import model_diagnostics._config as cfgmod
 from common import write_case_file, shard
 
 VALS = {"none": None, "mpl": "matplotlib", "plotly": "plotly", "inv1": "XXX", "inv2": "Matplotlib", "inv3": 1,
-        "inv4": "", "inv5": 0, "inv6": False}
+        "inv4": "", "inv5": 0, "inv6": False, "inv7": "plot", "inv8": "lib", "inv9": "matplotlibplotly"}
 COQ_ARG = {"none": "ANone", "mpl": "(AVal Matplotlib)", "plotly": "(AVal Plotly)", "inv1": "AInvalid",
-           "inv2": "AInvalid", "inv3": "AInvalid", "inv4": "AInvalid", "inv5": "AInvalid", "inv6": "AInvalid"}
+           "inv2": "AInvalid", "inv3": "AInvalid", "inv4": "AInvalid", "inv5": "AInvalid", "inv6": "AInvalid", "inv7": "AInvalid", "inv8": "AInvalid", "inv9": "AInvalid"}
 COQ_B = {"matplotlib": "Matplotlib", "plotly": "Plotly"}
 
 
@@ -55,7 +55,9 @@ def exec_prog(prog, trace, flat, av):
                 out = "ValueError"
             except ModuleNotFoundError:
                 out = "ModuleNotFound"
-            observe(out, trace)
+            except Exception as e:  # noqa: BLE001 - any other class is itself a finding for an invalid name
+                out = "Other:" + type(e).__name__
+            observe(out if not out.startswith("Other:") else "ValueError", trace)
             if node[1].startswith("inv") and (out != "ValueError" or get_config() != before):
                 PROPERTY_FAILS.append(f"invalid backend {VALS[node[1]]!r}: outcome {out}, config {before} -> {get_config()}")
             if out != "Done" and get_config() != before:
@@ -129,7 +131,7 @@ def gen_prog(rng, budget, depth):
 
 def all_progs(n):
     """all programs with exactly n operations over a reduced alphabet (exhaustive tier)"""
-    vals = ["none", "mpl", "plotly", "inv1", "inv4"]
+    vals = ["none", "mpl", "plotly", "inv1", "inv4", "inv7"]
     if n == 0:
         yield []
         return
